@@ -1,6 +1,7 @@
 package main
 
 import (
+	"os"
 	"fmt"
 	"go/token"
 	"go/types"
@@ -533,15 +534,27 @@ func c07R7(e *Engine) {
 			if !strings.HasSuffix(typeName(g.Signature.Results().At(0).Type()), "language.Number") {
 				continue
 			}
+			takesNode := false
+			for _, prm := range g.Params {
+				if nt := namedOf(prm.Type()); nt != nil && nt.Obj().Name() == "InfixExpression" {
+					takesNode = true
+				}
+			}
+			if !takesNode {
+				continue // a projection helper (pair.numbers()): judged through its caller
+			}
 			ok := true
 			for _, r := range returnsOf(g) {
 				rv := retVals(r)
 				if isNilConst(rv[0]) {
 					continue
 				}
-				o0 := strings.Join(e.calleeArgOrigins(rv[0]), "|")
-				o1 := strings.Join(e.calleeArgOrigins(rv[1]), "|")
-				if !strings.Contains(o0, "InfixExpression.Left") || !strings.Contains(o1, "InfixExpression.Right") {
+				o0 := strings.Join(e.originsEval(rv[0]), "|")
+				o1 := strings.Join(e.originsEval(rv[1]), "|")
+				if os.Getenv("MINICHECK_TRACE") != "" {
+					fmt.Println("TRACE term-order", e.fname(g), "o0=", o0, "o1=", o1)
+				}
+				if !strings.Contains(o0, "eval-of field:InfixExpression.Left") || strings.Contains(o0, "InfixExpression.Right") || !strings.Contains(o1, "eval-of field:InfixExpression.Right") || strings.Contains(o1, "InfixExpression.Left") {
 					ok = false
 				}
 			}
